@@ -490,10 +490,13 @@ func ruleCode39Assembly(c *Ctx) {
 				c.Undecided(R, "code39.EncodeWithColor/loop", pat.Pos(), "character loop not found")
 			} else {
 				n.Bind[posV] = "i"
-				c.expectCond(R, "code39.EncodeWithColor/gap-iff", gap.Pos(), n.ReachCond(fn, hdr.Succs[0], gap.Block()), "i != 0")
-				c.Check(R, "code39.EncodeWithColor/gap-before-pattern", gap.Pos(), !dominatesInstr(pat, gap) && reachableFrom(gap.Block())[pat.Block()], "the gap precedes the character's pattern", "ok")
 				projectOK(n, fn, hdr.Succs[0], pat.Block())
-				c.expectCond(R, "code39.EncodeWithColor/pattern-iff", pat.Pos(), n.ReachCond(fn, hdr.Succs[0], pat.Block()), "ok")
+				patC := n.ReachCond(fn, hdr.Succs[0], pat.Block())
+				// for every character that is drawn (position i >= 0): a gap first, except at position 0
+				dom := cAnd(MustRefCond("i >= 0"), patC)
+				c.expectCondC(R, "code39.EncodeWithColor/gap-iff", gap.Pos(), cAnd(dom, n.ReachCond(fn, hdr.Succs[0], gap.Block())), cAnd(dom, MustRefCond("i != 0")))
+				c.Check(R, "code39.EncodeWithColor/gap-before-pattern", gap.Pos(), !dominatesInstr(pat, gap) && reachableFrom(gap.Block())[pat.Block()], "the gap precedes the character's pattern", "ok")
+				c.expectCond(R, "code39.EncodeWithColor/pattern-iff", pat.Pos(), patC, "ok")
 			}
 		}
 	}
